@@ -135,6 +135,8 @@ STMTS = {
     "annonly": lambda n, doc: f"{n}: int\n",
     "class": lambda n, doc: f"class {n}:\n" + ind((DOCS[doc] + "\n" if DOCS[doc] else "") + "pass"),
     "exc": lambda n, doc: f"class {n}(ValueError):\n" + ind((DOCS[doc] + "\n" if DOCS[doc] else "") + "pass"),
+    "exc_mixin": lambda n, doc: f"class Mix_{n}:\n    pass\nclass {n}(ValueError, Mix_{n}):\n" + ind((DOCS[doc] + "\n" if DOCS[doc] else "") + "pass"),
+    "exc_sub": lambda n, doc: f"class Base_{n}(KeyError):\n    pass\nclass {n}(Base_{n}):\n" + ind((DOCS[doc] + "\n" if DOCS[doc] else "") + "pass"),
     "nesteddef": lambda n, doc: f"def outer_{n}(self):\n" + ind(f"def {n}(): pass\nreturn {n}"),
     "tupleassign": lambda n, doc: f"{n}, {n}_b = 1, 2\n",
     "nestedclass": lambda n, doc: f"class {n}:\n" + ind(f"class Inner:\n" + ind((DOCS[doc] + "\n" if DOCS[doc] else "") + "def im(self): pass")),
@@ -252,7 +254,7 @@ NK = len(SKEYS)
     parts=lambda: [[sc, i] for sc in range(2) for i in range(NK)], timeout=(240, 1800), cls="E", tracing="concrete-after-choice", twin="first",
     code=["pydoctor.astbuilder.ModuleVistor.visit_If/visit_ClassDef/_handleFunctionDef/_handleOldSchoolMethodDecoration/_handlePropertyDef/_handleAssignment*/visit_Expr/visit_Try/visit_With/visit_For",
           "pydoctor.astutils.get_docstring_node/extract_docstring/NodeVisitor.get_children", "pydoctor.model.is_exception/defaultPostProcess"],
-    bounds={"quick": "two-statement programs: 15 statement kinds (def, async def, classmethod, staticmethod, property, old-style staticmethod()/classmethod() wrapping, assignment, annotated assignment, annotation only, class, exception class, def nested in a def, tuple assignment, class with nested class) for each of the two statements x 8 wrappers of the first (plain, if, try, with, for, `if __name__ == '__main__'`, `if __name__ != '__main__'`, `if not (__name__ == '__main__')`) x 4 docstring layouts x module / class scope",
+    bounds={"quick": "two-statement programs: 17 statement kinds (def, async def, exception class with a mixin listed after the builtin exception, exception class through an intermediate class, classmethod, staticmethod, property, old-style staticmethod()/classmethod() wrapping, assignment, annotated assignment, annotation only, class, exception class, def nested in a def, tuple assignment, class with nested class) for each of the two statements x 8 wrappers of the first (plain, if, try, with, for, `if __name__ == '__main__'`, `if __name__ != '__main__'`, `if not (__name__ == '__main__')`) x 4 docstring layouts x module / class scope",
             "thorough": "same"},
     outside="multi-module packages (C04/C07), metaclasses, __slots__, conditional redefinition (C02), except/finally bodies",
 )
